@@ -210,7 +210,15 @@ func (w *World) LoadL1(ctx context.Context, s *Stores, dense bool) error {
 	last := len(w.L1Blocks) - 1
 	for i, b := range w.L1Blocks {
 		if s.L1Bridge != nil {
-			if sb := w.L1BridgeBlock(b); dense || len(sb.Events) > 0 || i == last {
+			if want := w.L1BridgeBlock(b); dense || len(want.Events) > 0 || i == last {
+				// through the real log handlers of the bridge syncer (logpath.go)
+				sb, err := w.L1BridgeBlockViaLogs(b)
+				if err != nil {
+					return fmt.Errorf("L1 bridge syncer, block %d: %w", b.Num, err)
+				}
+				if err := sameEvents(sb.Events, want.Events); err != nil {
+					return fmt.Errorf("L1 bridge syncer, block %d: %w", b.Num, err)
+				}
 				if err := s.L1Bridge.VerifStore().ProcessBlock(ctx, sb); err != nil {
 					return fmt.Errorf("L1 bridge store, block %d: %w", b.Num, err)
 				}
